@@ -571,8 +571,25 @@ class Probe:
             break
 
 
+def sonrq_credentials(p):
+    """SONRQ's own group rule (not a declared mutex): <USERID> and <USERPASS>, or <USERKEY>, but not both and not neither."""
+    try:
+        args, kwargs = p.base()
+    except Exception:
+        p.ctx.count("base_failed")
+        return
+    base = {k: v for k, v in kwargs.items() if k not in ("userid", "userpass", "userkey")}
+    p.must_accept("sonrq-credentials", "kwargs", lambda: p.cls(*args, **dict(base, userid="u", userpass="p")), "userid+userpass")
+    p.must_accept("sonrq-credentials", "kwargs", lambda: p.cls(*args, **dict(base, userkey="k")), "userkey")
+    for bad, label in (({}, "none"), ({"userid": "u"}, "userid-only"), ({"userpass": "p"}, "userpass-only"),
+                       ({"userid": "u", "userpass": "p", "userkey": "k"}, "all-three"), ({"userid": "u", "userkey": "k"}, "userid+userkey")):
+        p.must_reject("sonrq-credentials-rule-not-in-force", "kwargs", lambda bad=bad: p.cls(*args, **dict(base, **bad)), label)
+
+
 def run_class(ctx, name, cls, seedstr):
     p = Probe(ctx, name, cls, seedstr)
+    if name == "SONRQ":
+        sonrq_credentials(p)
     p.per_child()
     p.groups()
     p.order_and_duplicates()
